@@ -429,6 +429,29 @@ lib_main (int argc, char **argv)
 			do_notify ((int) a[0]);
 			break;
 
+		case 'I': /* device ioctl through the proxy: index into a table of harmless V4L2 requests */
+			if (NULL != vpc && NULL != cap) {
+#ifdef ENABLE_V4L2
+				static const unsigned int req[] = {
+					VIDIOC_G_STD, VIDIOC_QUERYSTD, VIDIOC_G_INPUT, VIDIOC_G_TUNER,
+					VIDIOC_G_FREQUENCY, VIDIOC_QUERYCAP, VIDIOC_ENUMINPUT, VIDIOC_G_CTRL
+				};
+				union {
+					uint8_t b[512];
+					uint64_t align;
+				} arg;
+				double t0 = now ();
+				int r;
+
+				memset (&arg, 0, sizeof (arg));
+				ctx = 'i';
+				r = vbi_proxy_client_device_ioctl (vpc, (int) req[a[0] % 8], &arg);
+				ctx = '-';
+				fprintf (lg, "IOC %.6f %.6f %ld %d %d\n", t0, now (), a[0] % 8, r, errno);
+#endif
+			}
+			break;
+
 		case 'H': /* channel notify, only while the token is held */
 			if (NULL != vpc && vbi_proxy_client_has_channel_control (vpc))
 				do_notify ((int) a[0]);
